@@ -449,6 +449,19 @@ def patho_tiny_edge_coefficient(rng):
     return b
 
 
+def patho_fused_zero_member(rng):
+    """an sp shell whose s member is all zero (a 'p-only' SP block): NOT valid for the validator, legal input for the
+    re-contraction functions - the zero member is no function, the p member must stay a p function"""
+    b = gen_basis(rng, nel=1, allow_fused=False, lmax=0)
+    el = next(iter(b['elements'].values()))
+    el.setdefault('electron_shells', []).append(
+        {'function_type': 'gto', 'region': '', 'angular_momentum': [0, 1], 'exponents': ['7.1', '1.9', '0.45'],
+         'coefficients': [['0.0', '0.0', '0.0'], ['0.1', '0.4', '0.7']]})
+    b['function_types'] = whole_types(b['elements'])
+    return b
+
+
+NOT_VALIDATOR_VALID = [patho_fused_zero_member]
 PATHOLOGICAL = [patho_dup_function, patho_contraction_on_free, patho_mixed_fused, patho_spd, patho_spd_free_low, patho_pd_fused,
                 patho_equal_coefficients, patho_plain_then_fused_shared, patho_cancelling, patho_unsorted_fused, patho_respelled_shared,
                 patho_p_only_primitive_in_sp, patho_tiny_edge_coefficient]
